@@ -111,7 +111,8 @@ Observe ==
                restrict |-> LET k == KeysOf(Root, o) IN IF k.ok THEN Restrict(o, k.ks) ELSE EmptyD,
                permit |-> Permit(Root, o),
                swallows |-> Swallows(Root, o) \/ LET k == KeysOf(Root, o) IN k.ok /\ Swallows(Root, Restrict(o, k.ks)),
-               visited |-> {x.n : x \in Visit(Root, o)},
+               visited |-> {x.n : x \in Visit(Root, o)} \cup {BaseOf(x.n) : x \in Visit(Root, o)},
+               raises |-> Raises,
                overlay |-> LET r == NodeRec(Root) IN
                            IF r.k = "with" THEN Overlay(r, o) ELSE IF r.k = "ds" THEN DsOptions(r, o) ELSE o]
 
